@@ -206,6 +206,13 @@ func perform(ctx context.Context, h handle, row Row, k vh.Key) error {
 			opts = append(opts, controller.WithModifyNoOwner())
 		}
 
+		switch row.Opt {
+		case "phaseAny":
+			opts = append(opts, controller.WithExpectedPhaseAny())
+		case "phaseTd":
+			opts = append(opts, controller.WithExpectedPhase(resource.PhaseTearingDown))
+		}
+
 		return h.Modify(ctx, vh.NewRes(k, vh.Obj{Spec: 1, Phase: "running"}), bump, opts...)
 	case "teardown":
 		_, err := h.Teardown(ctx, ptr, delOpts...)
